@@ -31,6 +31,8 @@ def real_atom(a):
     if k in ("c", "num", "loop"):
         return True
     if k == "fn":
+        if a[1] in ("fftshift", "ifftshift") and len(a[2]) == 1 and isinstance(a[2][0], Form):
+            return is_real_form(a[2][0], real_atom)      # a reordering of real numbers
         return a[1] in ("fftfreq", "siglen", "abs", "max")
     if k == "grp":
         return is_real_form(a[1], real_atom)
@@ -41,24 +43,47 @@ def w_form():
     return 2 * PI * mk_fn("fftfreq", [mk_fn("siglen", [S("input.signal")])]) * S("gv.fs")
 
 
-def rule_dm(ctx):
+def _mark_shifted(f, mark=False):
+    """the form with every fftshift removed and every frequency-grid atom under one renamed: an element-wise function of uniformly
+    reordered arrays is the reordered function, so fftshift(g(w)) and g(fftshift(w)) get the same form"""
+    if not isinstance(f, Form):
+        return f
+
+    def sub(a):
+        if a[0] == "fn" and a[1] == "fftshift" and len(a[2]) == 1 and isinstance(a[2][0], Form) and not [k for k, v_ in a[3] if k not in ("axes",)]:
+            return _mark_shifted(a[2][0], True)
+        if a[0] == "fn" and a[1] == "fftfreq" and mark:
+            return Form.atom(("fn", "fftfreq@shifted", a[2], a[3]))
+        if a[0] == "fn" and mark and a[1] in ("exp", "cos", "sin", "abs", "conj", "real", "imag") and len(a[2]) == 1 and isinstance(a[2][0], Form):
+            return Form.atom(("fn", a[1], (_mark_shifted(a[2][0], True),), a[3]))
+        if a[0] == "fn" and not mark and a[1] in ("exp", "cos", "sin", "abs", "conj", "real", "imag") and len(a[2]) == 1 and isinstance(a[2][0], Form):
+            return Form.atom(("fn", a[1], (_mark_shifted(a[2][0], False),), a[3]))
+        return None
+    return f.subst(sub)
+
+
+def rule_dm(ctx, r_out="C07.1", r_h="C07.7"):
     pkg = ctx.pkg
     fi = pkg.func("devices.DM")
     w = w_form()
     E = Form.num(0, -1) * w * w * S("D") * Form.num(Fraction(1, 10 ** 24)) / 2
     H = mk_fn("exp", [E])
-    for noise in ("none", "notnone"):
-        it = Interp(pkg, assumptions={"retH": False, "input.noise": noise}, param_classes={"input": "optical_signal"})
+    for noise, reth in (("none", False), ("notnone", False), ("none", True), ("notnone", True)):
+        it = Interp(pkg, assumptions={"retH": reth, "input.noise": noise}, param_classes={"input": "optical_signal"})
         outs = it.run(fi)
         rets = [o for o in outs if o.kind == "return"]
-        if len(rets) != 1 or not isinstance(rets[0].value, ObjV):
-            ctx.unknown("C07.1", fi, fi.node, f"DM [noise={noise}]", f"{len(rets)} return paths")
+        if reth and len(rets) == 1 and isinstance(rets[0].value, TupleV) and len(rets[0].value.items) == 2 and isinstance(rets[0].value.items[0], ObjV):
+            out, node = rets[0].value.items[0], rets[0].node          # the field returned next to the response is the same filtered field
+        elif len(rets) != 1 or not isinstance(rets[0].value, ObjV):
+            ctx.unknown(r_out, fi, fi.node, f"DM [noise={noise}{', retH' if reth else ''}]", f"{len(rets)} return paths")
             continue
-        out, node = rets[0].value, rets[0].node
+        else:
+            out, node = rets[0].value, rets[0].node
+        noise = f"{noise}, retH" if reth else noise
         sig = out.fields.get("signal")
         want = mk_fn("ifft", [H * mk_fn("fft", [S("input.signal")], [("axis", Form.num(-1))])], [("axis", Form.num(-1))])
         if isinstance(sig, Form) and sig == want:
-            ctx.holds("C07.1", fi, node, f"DM [noise={noise}] output = ifft(H*fft(x)), H = {H!r}", "all-pass: exponent is j x real, coefficient -w^2*D*1e-24/2")
+            ctx.holds(r_out, fi, node, f"DM [noise={noise}] output = ifft(H*fft(x)), H = {H!r}", "all-pass: exponent is j x real, coefficient -w^2*D*1e-24/2")
         else:
             # diagnose the exponent
             exps = [a for a in (sig.atoms() if isinstance(sig, Form) else []) if a[0] == "fn" and a[1] == "exp"]
@@ -66,9 +91,9 @@ def rule_dm(ctx):
             if got is not None and got != E:
                 real = is_real_form(got * Form.num(0, -1), real_atom)
                 why = "" if real else " and is not j x (real): |H| != 1, energy is not conserved"
-                ctx.violation("C07.1", fi, node, f"DM exponent = {got!r}", f"differs from -j*w^2*D*1e-24/2 = {E!r}{why}")
+                ctx.violation(r_out, fi, node, f"DM exponent = {got!r}", f"differs from -j*w^2*D*1e-24/2 = {E!r}{why}")
             else:
-                ctx.violation("C07.1", fi, node, f"DM [noise={noise}] output.signal", f"output is not ifft(H*fft(input, axis=-1), axis=-1) with the documented H")
+                ctx.violation(r_out, fi, node, f"DM [noise={noise}] output.signal", f"output is not ifft(H*fft(input, axis=-1), axis=-1) with the documented H")
     # retH
     it = Interp(pkg, assumptions={"retH": True, "input.noise": "none"}, param_classes={"input": "optical_signal"})
     outs = it.run(fi)
@@ -76,10 +101,10 @@ def rule_dm(ctx):
     if len(rets) == 1 and isinstance(rets[0].value, TupleV) and len(rets[0].value.items) == 2:
         Hret = rets[0].value.items[1]
         want = mk_fn("fftshift", [H])
-        ctx.check("C07.7", isinstance(Hret, Form) and Hret == want, fi, rets[0].node, f"DM retH = {Hret!r}"[:300], "fftshift of the applied H",
+        ctx.check(r_h, isinstance(Hret, Form) and (Hret == want or _mark_shifted(Hret) == _mark_shifted(want)), fi, rets[0].node, f"DM retH = {Hret!r}"[:300], "fftshift of the applied H",
                   f"the response returned by retH is not fftshift of the filter actually applied ({want!r})")
     else:
-        ctx.unknown("C07.7", fi, fi.node, "DM retH", "retH return not a (signal, H) pair")
+        ctx.unknown(r_h, fi, fi.node, "DM retH", "retH return not a (signal, H) pair")
     it = Interp(pkg, assumptions={"input": ("notinst", "optical_signal")})
     outs = it.run(fi)
     pass  # (clause removed: the property statement names no exception for this case - it was read off the docstring, i.e. the check demanded more than the property)
